@@ -178,3 +178,33 @@ Section Expected.
     - apply forallb_Forall in Hrows. apply forallb_Forall in Hc. apply rows_expected_ok; assumption.
   Qed.
 End Expected.
+
+(* ---------------------------------------------------------------- no clause of the known class is superfluous:
+   each of the three has an in-scope member on which the read fails; the same tables are outside the class
+   (and therefore round-trip) with another delimiter *)
+Definition idf : nat -> list byte -> list byte := fun _ e => e.
+Definition refutes (d : byte) (t : table) : Prop :=
+  table_ok t /\ delim_ok d /\ fcontract idf idf t /\ strings_noeol t /\ kf_leading_ws_after_numeric d t = true
+  /\ ~ roundtrip_ok t (read_text idf d (tdt t) (Z.of_nat (length (trows t))) (write_text idf d t)).
+
+Lemma refutes_by_error d t :
+  table_ok_b t = true -> delim_ok_b d = true -> fcontract_b idf idf t = true -> strings_noeol_b t = true ->
+  kf_leading_ws_after_numeric d t = true ->
+  read_text idf d (tdt t) (Z.of_nat (length (trows t))) (write_text idf d t) = Err ERuntime -> refutes d t.
+Proof.
+  intros H1 H2 H3 H4 H5 E. unfold refutes. repeat split; try assumption.
+  rewrite E. intros [tout [H _]]. discriminate.
+Qed.
+
+Lemma kf_clause_witnesses :
+  refutes x2c kf_witness            (* first cell of the next row starts with white space, ',' *)
+  /\ refutes x3b w_delim            (* first cell of the next row starts with the delimiter, ';' *)
+  /\ refutes x09 w_tab              (* same row, tab delimiter, cell starts with white space *)
+  /\ kf_leading_ws_after_numeric x2c w_tab = false /\ kf_leading_ws_after_numeric x2c w_delim = false
+  /\ kf_leading_ws_after_numeric space kf_witness = false.
+Proof.
+  split; [apply refutes_by_error; vm_compute; reflexivity|].
+  split; [apply refutes_by_error; vm_compute; reflexivity|].
+  split; [apply refutes_by_error; vm_compute; reflexivity|].
+  repeat split; reflexivity.
+Qed.
